@@ -44,3 +44,47 @@ def tn_iname(t):
 @spec()
 def tn_qualified(t):
     return '::'.join(t.namespaces + [t.name])
+
+NSR = ('parent', 'name')
+
+
+@spec(rec=True, ret='seq:str', reads=NSR)
+def ns_chain(a):
+    """names of a and its named ancestors, outermost first; a is '' (no parent) or a node"""
+    if isinstance(a, str):
+        return []
+    if a.name == '':
+        return []
+    return ns_chain(a.parent) + [a.name]
+
+
+TY = TN + ('typename', 'template_params', 'is_const', 'is_shared_ptr', 'is_ptr', 'is_ref')
+
+
+@spec()
+def q_cpp(x, t):
+    """spelling x wrapped in the pointer / reference / const markers of type t"""
+    return (('const ' if t.is_const else '')
+            + (('std::shared_ptr<' + x + '>') if t.is_shared_ptr else ((x + '*') if t.is_ptr else ((x + '&') if t.is_ref else x))))
+
+
+@spec(rec=True, ret='bool', reads=TY)
+def wf_ty(t):
+    if isinstance(t, TemplatedType):
+        return (isinstance(t.typename.name, str)
+                and forall(0, len(t.template_params), lambda j: wf_ty(t.template_params[j])))
+    return wf_tn(t.typename)
+
+
+@spec(rec=True, ret='str', reads=TY)
+def ty_cpp(t):
+    if isinstance(t, TemplatedType):
+        return q_cpp(tn_qualified(t.typename) + '<' + ', '.join([ty_cpp(p) for p in t.template_params]) + '>', t)
+    return q_cpp(tn_cpp(t.typename), t)
+
+
+@spec()
+def igf_cpp(f):
+    """InstantiatedGlobalFunction.to_cpp: name<ns::Inst,...> with the identifier-safe instantiated names"""
+    return (f.original.name + '<' + ','.join(['::'.join(i.namespaces + [tn_iname(i)]) for i in f.instantiations]) + '>'
+            if f.original.template else f.original.name)
